@@ -17,7 +17,7 @@ const (
 
 func init() {
 	props["C01"] = c01
-	floors["C01"] = map[string]int{"C01.R1": 5, "C01.R2": 1, "C01.R3": 6, "C01.R4": 9, "C01.R5": 3}
+	floors["C01"] = map[string]int{"C01.R1": 5, "C01.R2": 1, "C01.R3": 6, "C01.R4": 15, "C01.R5": 3}
 }
 
 // exitKind classifies a return of an exchange function.
@@ -369,6 +369,37 @@ func c01(r *Report) {
 					}
 					r.Decide("path", "Warning only on an error branch: "+site(f, c), ok, "dominated by err != nil", "proxyutil.Warning is called outside the branch where its error is non-nil", c.Pos())
 				}
+			}
+		}
+		// the core assigns only the message fields it is meant to derive (everything else is the
+		// client's / origin's message and must reach the other side as read)
+		allowedReq := map[string]bool{"TLS": true, "RemoteAddr": true}
+		allowedRes := map[string]bool{"Request": true, "Close": true, "ContentLength": true}
+		allowedURL := map[string]bool{"Scheme": true, "Host": true}
+		for _, f := range w.Funcs("") {
+			for _, in := range instrs(f) {
+				st, ok := in.(*ssa.Store)
+				if !ok {
+					continue
+				}
+				fa, ok := st.Addr.(*ssa.FieldAddr)
+				if !ok {
+					continue
+				}
+				var allowed map[string]bool
+				switch fa.X.Type().String() {
+				case "*net/http.Request":
+					allowed = allowedReq
+				case "*net/http.Response":
+					allowed = allowedRes
+				case "*net/url.URL":
+					allowed = allowedURL
+				default:
+					continue
+				}
+				name := fieldObj(fa).Name()
+				r.Sites++
+				r.Decide("callgraph", fmt.Sprintf("%s assigns %s.%s", fnName(f), strings.TrimPrefix(fa.X.Type().String(), "*"), name), allowed[name], "one of the fields the proxy derives itself", "the proxy core overwrites a part of the message that must be relayed as read (body, method, headers, lengths ...)", st.Pos())
 			}
 		}
 		// Warning itself only adds a Warning header
